@@ -176,6 +176,11 @@ def _fill_spec(spec: StructSpec, cls: type) -> None:
 # python value <-> neutral tree (exact arithmetic)
 
 
+def _short(x: object) -> str:
+    r = repr(x)
+    return r if len(r) <= 80 else r[:80] + ".."
+
+
 class Inexact(Exception):
     """A python value that has no exact neutral representation (sub-millisecond etc.)."""
 
@@ -188,44 +193,44 @@ def _leaf_to_tree(fs: FieldSpec, x: object) -> object:
     k = fs.ktype
     if k in ("timedelta_i32", "timedelta_i64"):
         if not isinstance(x, datetime.timedelta):
-            raise Inexact(f"{fs.name}: {x!r} is not a timedelta")
+            raise Inexact(f"{fs.name}: {_short(x)} is not a timedelta")
         q, r = divmod(x, MS)
         if r:
-            raise Inexact(f"{fs.name}: {x!r} is not whole milliseconds")
+            raise Inexact(f"{fs.name}: {_short(x)} is not whole milliseconds")
         return q
     if k == "datetime_i64":
         if not isinstance(x, datetime.datetime) or x.tzinfo is None:
-            raise Inexact(f"{fs.name}: {x!r} is not an aware datetime")
+            raise Inexact(f"{fs.name}: {_short(x)} is not an aware datetime")
         q, r = divmod(x - EPOCH, MS)
         if r:
-            raise Inexact(f"{fs.name}: {x!r} is not whole milliseconds")
+            raise Inexact(f"{fs.name}: {_short(x)} is not whole milliseconds")
         return q
     if k == "uuid":
         if not isinstance(x, _uuid.UUID):
-            raise Inexact(f"{fs.name}: {x!r} is not a UUID")
+            raise Inexact(f"{fs.name}: {_short(x)} is not a UUID")
         return x.bytes
     if k == "error_code":
         return int(x)
     if k == "bool":
         if not isinstance(x, bool):
-            raise Inexact(f"{fs.name}: {x!r} is not a bool")
+            raise Inexact(f"{fs.name}: {_short(x)} is not a bool")
         return x
     if k == "float64":
         if isinstance(x, int) and not isinstance(x, bool):
             return float(x)  # equal by value; whether an int inhabits the declared type is C13's business
         if not isinstance(x, float):
-            raise Inexact(f"{fs.name}: {x!r} is not a float")
+            raise Inexact(f"{fs.name}: {_short(x)} is not a float")
         return x
     if k == "string":
         if not isinstance(x, str):
-            raise Inexact(f"{fs.name}: {x!r} is not a str")
+            raise Inexact(f"{fs.name}: {_short(x)} is not a str")
         return str(x)
     if k in ("bytes", "records"):
         if not isinstance(x, bytes):
-            raise Inexact(f"{fs.name}: {x!r} is not bytes")
+            raise Inexact(f"{fs.name}: {_short(x)} is not bytes")
         return bytes(x)
     if isinstance(x, bool) or not isinstance(x, int):
-        raise Inexact(f"{fs.name}: {x!r} is not an int")
+        raise Inexact(f"{fs.name}: {_short(x)} is not an int")
     return int(x)
 
 
